@@ -1,5 +1,11 @@
 """Line servers: the implementation (`cfimpl`, real crate) and the model (`cfdriver`, Lean)."""
+import os
+import select
 import subprocess
+
+# a reply that does not arrive within this many seconds is a hang of the server (an iterator that never returns,
+# a deadlock): the server is killed and restarted and the reply is the word "hang"
+TIMEOUT = {"impl": float(os.environ.get("CFVERIF_IMPL_TIMEOUT", "60")), "model": float(os.environ.get("CFVERIF_MODEL_TIMEOUT", "900"))}
 
 
 class Server:
@@ -27,6 +33,18 @@ class Server:
         try:
             self.p.stdin.write(line + "\n")
             self.p.stdin.flush()
+            limit = TIMEOUT["impl" if self.name.startswith("impl") else "model"]
+            ready, _, _ = select.select([self.p.stdout], [], [], limit)
+            if not ready:
+                self.restarts += 1
+                self.hangs = getattr(self, "hangs", 0) + 1
+                try:
+                    self.p.kill()
+                    self.p.wait(timeout=10)
+                except Exception:
+                    pass
+                self._start()
+                return "hang"
             reply = self.p.stdout.readline()
         except (BrokenPipeError, OSError):
             reply = ""
